@@ -1,0 +1,78 @@
+// SPDX-License-Identifier: Apache-2.0 OR MIT
+
+//! Verification hooks: direct access to each compiled bucket-aggregation
+//! back end.
+//!
+//! Each x86 wrapper returns `false` (leaving `out` untouched) when the back
+//! end is not compiled into this build or the CPU lacks the instruction set.
+
+#![allow(missing_docs, clippy::missing_docs_in_private_items, unused_variables)]
+
+macro_rules! plain_backend {
+    ($name:ident, $path:path, $small:literal, $large:literal) => {
+        pub fn $name(out: &mut [u8; $small], buckets: &[u32; $large], q1: u32, q2: u32, q3: u32) {
+            $path(out, buckets, q1, q2, q3)
+        }
+    };
+}
+plain_backend!(naive_48, super::naive::aggregate_48, 12, 48);
+plain_backend!(naive_128, super::naive::aggregate_128, 32, 128);
+plain_backend!(naive_256, super::naive::aggregate_256, 64, 256);
+plain_backend!(dispatch_48, super::aggregate_48, 12, 48);
+plain_backend!(dispatch_128, super::aggregate_128, 32, 128);
+plain_backend!(dispatch_256, super::aggregate_256, 64, 256);
+
+macro_rules! x86_backend {
+    ($name:ident, $module:ident, $func:ident, $small:literal, $large:literal, $feature:tt, [$($modcfg:tt)*]) => {
+        pub fn $name(out: &mut [u8; $small], buckets: &[u32; $large], q1: u32, q2: u32, q3: u32) -> bool {
+            cfg_if::cfg_if! {
+                if #[cfg(all(
+                    feature = "simd-per-arch",
+                    feature = "opt-simd-bucket-aggregation",
+                    any(target_arch = "x86", target_arch = "x86_64"),
+                    $($modcfg)*
+                ))] {
+                    cfg_if::cfg_if! {
+                        if #[cfg(feature = "detect-features")] {
+                            let available = std::arch::is_x86_feature_detected!($feature);
+                        } else {
+                            let available = cfg!(target_feature = $feature);
+                        }
+                    }
+                    if available {
+                        #[allow(unsafe_code)]
+                        unsafe {
+                            super::$module::$func(out, buckets, q1, q2, q3)
+                        };
+                        true
+                    } else {
+                        false
+                    }
+                } else {
+                    false
+                }
+            }
+        }
+    };
+}
+
+macro_rules! x86_backends {
+    ($module:ident, $feature:tt, [$($modcfg:tt)*], $n48:ident, $n128:ident, $n256:ident) => {
+        x86_backend!($n48, $module, aggregate_48, 12, 48, $feature, [$($modcfg)*]);
+        x86_backend!($n128, $module, aggregate_128, 32, 128, $feature, [$($modcfg)*]);
+        x86_backend!($n256, $module, aggregate_256, 64, 256, $feature, [$($modcfg)*]);
+    };
+}
+
+x86_backends!(x86_sse2, "sse2", [any(
+    feature = "detect-features",
+    all(not(target_feature = "avx2"), not(target_feature = "ssse3"), target_feature = "sse2")
+)], sse2_48, sse2_128, sse2_256);
+x86_backends!(x86_ssse3, "ssse3", [any(
+    feature = "detect-features",
+    all(not(target_feature = "avx2"), target_feature = "ssse3")
+)], ssse3_48, ssse3_128, ssse3_256);
+x86_backends!(x86_avx2, "avx2", [any(
+    feature = "detect-features",
+    target_feature = "avx2"
+)], avx2_48, avx2_128, avx2_256);
